@@ -256,8 +256,9 @@ func (c *c32RefChain) arm() {
 }
 
 // c32RefTimeouts (K): a pending batch must have been flushed by its timer
-// long before K consecutive reference timeouts have elapsed.
-const c32RefTimeouts = 600
+// long before K consecutive reference timeouts have elapsed (on the reference
+// tree the most ever seen in a successful wait, on a loaded machine, was 45).
+const c32RefTimeouts = 1500
 
 // c32RunSeq drives one sequential case (the monitor is the only sender and the only reader).
 func c32RunSeq(c c32Case) (*c32Trace, c32RunInfo) {
@@ -509,12 +510,12 @@ func c32GenSeq(rng *rand.Rand) c32Case {
 // with a flush timer: a non-empty pending batch, a Send that does not fit (the
 // old batch is emitted by the overflow path and the new message starts the
 // next batch), possibly a few tiny messages that still fit, then silence - no
-// further overflow, no Close - until the timer must have flushed; 1..3 rounds,
+// further overflow, no Close - until the timer must have flushed; 1..2 rounds,
 // Close (explicit or implied) only at the end.
 func c32GenOverflowQuiet(rng *rand.Rand) c32Case {
 	c := c32Case{MaxSize: c32Maxes[rng.IntN(len(c32Maxes))], QueueCap: 6 + rng.IntN(40), Timer: true}
 	half := func() int { return c.MaxSize/2 + rng.IntN(c.MaxSize/4+1) } // two of these never fit together, one always fits
-	rounds := 1 + rng.IntN(3)
+	rounds := 1 + rng.IntN(2)
 	for r := 0; r < rounds; r++ {
 		switch rng.IntN(3) {
 		case 0: // the pending batch is one message
@@ -658,15 +659,20 @@ func c32RunConc(c c32Case) (findings []c32Finding, st c32Stats, info c32RunInfo,
 
 func TestC32(t *testing.T) {
 	r := kit.Start(t, "C32", "exploration")
-	r.Rule("(1) sequential cases: a MessageBuffer with max size from a boundary-biased pool (8..20000, around the 1- and 2-byte length-prefix boundaries), queue capacity 1..47, flush timeout 1 ms or none; 3..32 ops send(size 0 / tiny / half / at and just below the limit / too large) | read up to n batches | logical wait for the timer flush | close anywhere; the monitor is the only sender and reader and samples len(Queue) before every read. (2) concurrent cases: 2..5 senders x 3..40 messages, one reader, queue never full, Close after all senders or in the middle. Oracle from the statement: decoded emitted batches = accepted messages, once and in order (per sender), missing runs only where the queue was observed full; every batch <= max size, decodes and re-encodes to itself. Non-trivial = at least 2 messages accepted; distinct = distinct (sizes, ops) of the case.")
+	r.Rule("(1) sequential cases: a MessageBuffer with max size from a boundary-biased pool (8..20000, around the 1- and 2-byte length-prefix boundaries), queue capacity 1..47, flush timeout 1 ms or none; 3..32 ops send(size 0 / tiny / half / at and just below the limit / too large) | read up to n batches | logical wait for the timer flush | close anywhere; every 6th case is the overflow-then-quiet scenario (non-empty pending batch, a Send that does not fit, possibly tiny sends that fit, then silence and no Close until the flush timer must have emitted the batch; 1..2 rounds, then Close). The monitor is the only sender and reader and samples len(Queue) before every read. (2) concurrent cases: 2..5 senders x 3..40 messages, one reader, queue never full, Close after all senders or in the middle. (3) end-to-end cases over loopback websockets on random free ports: the real api/ws WebSocketClient (max size 64..65536, a few cases with 64-128 KiB messages and a peer that only starts reading after Close was called) sends 1..80 messages (RegisterRawTx with payloads biased to the limits, RegisterBlocks, bursts of batch-filling messages that leave a backlog of batches, short pauses, rarely one longer than the 50 ms flush timeout, often a small last message that only Close flushes) and is closed; the peer is a frame-recording gorilla/websocket server or the real pubsub.Server (message callback) and reads the connection to its end; and the reverse direction: the real pubsub.Server Connection.Send (1 ms flush timeout) + writePump to a frame-recording client, nothing closed until everything arrived. Oracle from the statement: decoded emitted batches = accepted messages, once and in order (per sender), missing runs only where the queue was observed full (end-to-end: the queue capacity exceeds the number of sends, so nothing may be missing); every batch/frame <= max size, decodes (and re-encodes to itself). Non-trivial = at least 2 messages accepted; distinct = distinct (kind, sizes, ops) of the case.")
 	r.Assume(
 		"a Send that returns an error did not accept the message; which sizes are accepted is not part of the property",
 		"a dropped batch is justified when the queue was observed full at some queue observation between the acceptance of its first message and the read of the next emitted batch (the monitor is the only reader, so the queue length only grows between its reads)",
+		"timer flushes are awaited logically: after the last Send returned the monitor arms a chain of reference timers of the same Go runtime, each with the buffer's flush timeout and armed when the previous one fired; the runtime fires timers in deadline order, so a batch that is still pending (buffer open, queue never seen full, queue empty) after 1500 consecutive later-armed reference timeouts have fired is reported as C32/accepted-message-not-flushed-by-timer (on the reference tree at most a few dozen elapse); the 45 s wall-clock watchdog only yields inconclusive",
+		"end to end: a Register* call that returned nil accepted the message; after WebSocketClient.Close returned and the peer has read the connection to its end (TCP delivers everything written before the close), everything accepted must have arrived; in the server-to-client direction a missing tail is only inconclusive (watchdog), duplicates/reordering/gaps/oversized frames are violations",
 		"liveness of Close is not part of the statement: a Close that blocks in timer.Stop while the timer callback waits for the buffer lock is counted (close_hangs_outside_statement) but not reported as a violation",
 	)
 	closeHangs, gaveUp := 0, false
 	var maxRef int64 // most reference timeouts that elapsed during a successful timer-flush wait (margin to c32RefTimeouts)
+	stuckTotal := 0  // witnessing one stuck batch takes c32RefTimeouts flush timeouts: two witnesses are enough
+	nFindings := 0   // (kit keeps at most 3 witnesses per key, so r.Violations() alone does not bound the run)
 	report := func(c c32Case, finds []c32Finding) {
+		nFindings += len(finds)
 		for _, f := range finds {
 			r.Violation(f.key, c, "%s", f.detail)
 		}
@@ -690,6 +696,7 @@ func TestC32(t *testing.T) {
 		}
 		finds, st := c32Judge(tr)
 		finds = append(info.findings, finds...)
+		stuckTotal += info.timerStuck
 		w := c
 		for _, a := range tr.accepted {
 			w.Accepted = append(w.Accepted, len(a.msg))
@@ -803,9 +810,15 @@ func TestC32(t *testing.T) {
 	if rf := r.Replay(); rf != nil && len(rf.Witness) > 0 {
 		var c c32Case
 		if err := jsonUnmarshal(rf.Witness, &c); err == nil && c.MaxSize > 0 {
-			c.Accepted, c.BatchLens, c.Batches = nil, nil, nil
-			for i := 0; i < 20 && r.Violations() == 0; i++ {
-				if len(c.Senders) > 0 {
+			c.Accepted, c.BatchLens, c.Batches, c.Received = nil, nil, nil, nil
+			tries := 20
+			if c.E2E != "" {
+				tries = 200 // the outcome depends on a race inside the client
+			}
+			for i := 0; i < tries && r.Violations() == 0; i++ {
+				if c.E2E != "" {
+					judgeE2E(c)
+				} else if len(c.Senders) > 0 {
 					judgeConc(c)
 				} else {
 					judgeSeq(c)
@@ -815,21 +828,19 @@ func TestC32(t *testing.T) {
 			return
 		}
 	}
-	phaseT0 := time.Now()
 	rng := r.Rand("sequential")
 	n := r.N(6000, 300000)
-	for i := 0; i < n && r.Violations() < 6 && closeHangs < 20 && !gaveUp; i++ {
-		if i%5 == 4 {
+	for i := 0; i < n && nFindings < 6 && stuckTotal < 2 && closeHangs < 20 && !gaveUp; i++ {
+		if i%6 == 5 {
 			judgeSeq(c32GenOverflowQuiet(rng))
 		} else {
 			judgeSeq(c32GenSeq(rng))
 		}
 	}
 	r.Extra("timer_wait_reference_timeouts", map[string]int64{"max_elapsed_in_a_successful_wait": maxRef, "violation_threshold": c32RefTimeouts})
-	t.Logf("PHASE seq done %v", time.Since(phaseT0))
 	crng := r.Rand("concurrent")
 	m := r.N(600, 30000)
-	for i := 0; i < m && r.Violations() < 12 && closeHangs < 20 && !gaveUp; i++ {
+	for i := 0; i < m && nFindings < 6 && closeHangs < 20 && !gaveUp; i++ {
 		c := c32Case{MaxSize: c32Maxes[crng.IntN(len(c32Maxes))], Timer: crng.IntN(2) == 0}
 		if c.MaxSize < 16 {
 			c.MaxSize = 16
@@ -848,15 +859,13 @@ func TestC32(t *testing.T) {
 		}
 		judgeConc(c)
 	}
-	t.Logf("PHASE conc done %v", time.Since(phaseT0))
 	erng := r.Rand("end-to-end")
 	e := r.N(400, 20000)
 	nBig := r.N(2, 30) // c2s-raw cases with a few MB of 64-128 KiB messages (slow under -race)
-	for i := 0; i < e && r.Violations() < 6 && !gaveUp; i++ {
+	for i := 0; i < e && nFindings < 6 && !gaveUp; i++ {
 		kind := []string{"c2s-raw", "c2s-raw", "c2s-pubsub", "c2s-raw", "s2c"}[i%5]
 		judgeE2E(c32GenE2E(erng, kind, kind == "c2s-raw" && i/5 < nBig && i%5 == 0))
 	}
-	t.Logf("PHASE e2e done %v", time.Since(phaseT0))
 	if r.Violations() > 0 || gaveUp {
 		r.Finish(0) // cut short
 		return
